@@ -184,7 +184,34 @@ func (rec *RecordDefinition) UnmarshalYAML(value *yaml.Node) error {
 	return nil
 }
 
+// Reports an alias that refers to an anchor it is contained in. Expanding such
+// an alias would never terminate.
+func findRecursiveAlias(node *yaml.Node, ancestors map[*yaml.Node]bool) *yaml.Node {
+	if node == nil {
+		return nil
+	}
+	if node.Kind == yaml.AliasNode {
+		if ancestors[node.Alias] {
+			return node
+		}
+		return findRecursiveAlias(node.Alias, ancestors)
+	}
+
+	ancestors[node] = true
+	defer delete(ancestors, node)
+	for _, child := range node.Content {
+		if found := findRecursiveAlias(child, ancestors); found != nil {
+			return found
+		}
+	}
+	return nil
+}
+
 func (ns *Namespace) UnmarshalYAML(value *yaml.Node) error {
+	if recursiveAlias := findRecursiveAlias(value, make(map[*yaml.Node]bool)); recursiveAlias != nil {
+		return parseError(recursiveAlias, "the alias '*%s' refers to an anchor that contains it", recursiveAlias.Value)
+	}
+
 	if value.Tag != "!!map" {
 		return parseError(value, "expected a mapping from <typename>: <type definition>")
 	}
